@@ -138,8 +138,9 @@ pub fn run<T: Elem>(case: &Value, out: &mut Out) {
         // f64-only norms
         if matches!(name, "norm_1" | "norm_inf" | "norm_max" | "norm_units" | "lmul_scalar" | "empty") {
             if T::NAME == "f64" {
-                let mf = mat_from::<f64>(&pre_re, None);
-                let so = step_f64(&mf, op).unwrap();
+                // on the REAL object (not a copy rebuilt from its projection): hidden storage must not leak into a norm
+                let mf: &Matrix<f64> = (&m as &dyn std::any::Any).downcast_ref::<Matrix<f64>>().expect("f64 matrix");
+                let so = match guarded(|| step_f64(mf, op).unwrap()) { Ok(s) => s, Err(_) => { let mut s = StepOut::none(); s.panic = true; s } };
                 out.ev(event_for::<f64>(op, Part::Re, if k == 0 { Some(&pre_re) } else { None }, &pre_re, &so, cid, k));
             }
             continue;
@@ -335,6 +336,30 @@ pub fn gen(tier: &str, seed: u64, out: &mut Out) {
         ops.push(json!({"op": "set", "i": r - 1, "j": c - 1, "x": -7}));
         for p in [1, 2, 5] { ops.push(json!({"op": "norm_units", "p": p, "frob": 0})); }
         ops.push(json!({"op": "norm_units", "p": 2, "frob": 1})); ops.push(json!({"op": "norm_max"}));
+        push(out, json!({"ty": "f64", "init": init, "ops": ops}));
+    } }
+    // (g) every norm and every read-only view after every shape-changing operation (stale storage left behind by
+    //     delete_row / resize / clear / transpose must never be counted)
+    for r in 1..=8usize { for c in 1..=8usize {
+        if quick && (r * 3 + c) % 4 != 0 { continue; }
+        let init = rand_mat_json(&mut rng, r, c, -9, 9);
+        let norms = |ops: &mut Vec<Value>, rng: &mut StdRng| {
+            for o in ["norm_1", "norm_inf", "norm_max", "numel", "rows", "cols", "clone", "transpose"] { ops.push(json!({"op": o})); }
+            ops.push(json!({"op": "norm_units", "p": rng.gen_range(1..=4), "frob": 0})); ops.push(json!({"op": "norm_units", "p": 2, "frob": 1}));
+            ops.push(json!({"op": "add_self"}));
+        };
+        let mut ops: Vec<Value> = vec![];
+        let (mut cr, mut cc) = (r, c);
+        norms(&mut ops, &mut rng);
+        // make the LAST row the largest so that a stale copy of it dominates the max norm
+        ops.push(json!({"op": "fill_row", "i": cr - 1, "x": 40}));
+        for _ in 0..3 { if cr == 0 { break; } let i = rng.gen_range(0..cr); ops.push(json!({"op": "delete_row", "i": i})); cr -= 1; norms(&mut ops, &mut rng); }
+        let (nr, nc) = (rng.gen_range(0..=cr + 1), rng.gen_range(0..=cc)); ops.push(json!({"op": "resize", "nr": nr, "nc": nc})); cr = nr; cc = nc; norms(&mut ops, &mut rng);
+        let (nr, nc) = (cr + rng.gen_range(0..=2), cc + rng.gen_range(0..=2)); ops.push(json!({"op": "resize", "nr": nr, "nc": nc})); cr = nr; cc = nc; norms(&mut ops, &mut rng);
+        if cr > 0 && cc > 0 { ops.push(json!({"op": "fill", "x": -3})); ops.push(json!({"op": "delete_row", "i": 0})); norms(&mut ops, &mut rng); }
+        ops.push(json!({"op": "transpose_in_place"})); norms(&mut ops, &mut rng);
+        ops.push(json!({"op": "clear"})); norms(&mut ops, &mut rng);
+        ops.push(json!({"op": "resize", "nr": 2, "nc": 3})); norms(&mut ops, &mut rng);
         push(out, json!({"ty": "f64", "init": init, "ops": ops}));
     } }
     // (d) exact scalar division on multiples
